@@ -79,6 +79,12 @@ class GuardCtx:
             return any(self.relating(x, pol, obj_a, obj_b, len_facets) for x in c.c)
         if c.k == "UnaryOperator" and c.op == "!" and c.c:
             return self.relating(c.c[0], not pol, obj_a, obj_b, len_facets)
+        if c.k == "DeclRefExpr" and c.decl and c.decl.get("k") == "local" and c.tc == "bool":
+            from .ir import _single_def
+            d = _single_def(c)
+            if d is not None:
+                return self.relating(d, pol, obj_a, obj_b, len_facets)
+            return False
         cmp_ = as_comparison(c)
         if cmp_ is None:
             return False
